@@ -137,8 +137,9 @@ func c10(c *Ctx) {
 	c.Min("R2-mono", 14)
 	if c.Tier == "thorough" {
 		c.Mono("R2-meta", "pkg/db/meta.ChannelRuntimeMeta.RetentionThroughSeq", MonoOpts{LiteralsToo: true,
-			AlsoGuards: []string{"req.RetentionThroughSeq > existing.RetentionThroughSeq"},
-			ValueOK:    []string{"existing.RetentionThroughSeq"},
+			// the stored row is whatever the function loaded (a call result; a read-only local renders as that call)
+			AlsoGuards: []string{"req.RetentionThroughSeq > *(*)#0.RetentionThroughSeq", "req.RetentionThroughSeq > *(*).RetentionThroughSeq"},
+			ValueOK:    []string{"*(*)#0.RetentionThroughSeq", "*(*).RetentionThroughSeq"},
 			Resets: map[string]string{
 				"pkg/db/meta.*decode*":                     "row decode",
 				"pkg/db/meta.*Column*":                     "row decode",
